@@ -104,6 +104,15 @@ def build(configs):
                 p = subprocess.run(cargo_cmd(cfg), cwd=HARN, env=env, capture_output=True, text=True)
                 if p.returncode == 0:
                     shutil.copy(os.path.join(target_dir(cfg), "debug", "fcv"), fcv(cfg))
+                    # every scratch tree is a different package id: drop its artefacts again, keep the third-party ones
+                    dbg = os.path.join(target_dir(cfg), "debug")
+                    shutil.rmtree(os.path.join(dbg, "incremental"), ignore_errors=True)
+                    for sub in ("deps", ".fingerprint"):
+                        dd = os.path.join(dbg, sub)
+                        for f in os.listdir(dd) if os.path.isdir(dd) else []:
+                            if f.startswith(("fcv-", "libfutures_concurrency-", "futures_concurrency-", "futures-concurrency-")):
+                                pth = os.path.join(dd, f)
+                                shutil.rmtree(pth, ignore_errors=True) if os.path.isdir(pth) else os.remove(pth)
         else:
             p = subprocess.run(cargo_cmd(cfg), cwd=HARN, env=env, capture_output=True, text=True)
         return cfg, p.returncode, p.stderr[-4000:], time.time() - t0
@@ -533,6 +542,13 @@ def check(prop, tier, seed):
     )
     with open(os.path.join(EVID, "%s.json" % prop), "w") as f:
         json.dump(ev, f, indent=1)
+    if not os.environ.get("VERIF_KEEP_WORK"):
+        for f in os.listdir(WORK):          # the replay files carry the traces that matter
+            if f.startswith(("trace_%s_" % prop, "vec_%s_" % prop, "l2runs_%s" % prop, "l2diag_%s" % prop)):
+                try:
+                    os.remove(os.path.join(WORK, f))
+                except OSError:
+                    pass
     for l in out_lines:
         print(l)
     print("%s %s: %d real executions (%d distinct, %d non-trivial), %d events monitored, L2 states %d, violations %d, %.1fs"
